@@ -81,7 +81,7 @@ let () =
        else if how = "END" && (sorted_ints s.sg.refused <> sort_field (field kv "refused") || sorted_ints s.sg.dropped <> sort_field (field kv "dropped")) then
          r.bad <- Some (Printf.sprintf "kind=results model=refused:%s/dropped:%s impl=refused:%s/dropped:%s"
                           (sorted_ints s.sg.refused) (sorted_ints s.sg.dropped) (sort_field (field kv "refused")) (sort_field (field kv "dropped")))
-       else if how = "STUCK" && not (self_blocked s) then r.bad <- Some "kind=deadlock model=STUCK-not-self-blocked impl=STUCK"
+       else if how = "STUCK" && (not (self_blocked s) || s.sp.shutdown) then r.bad <- Some "kind=deadlock model=STUCK-not-self-blocked-or-during-free impl=STUCK"
      | _ -> ());
     incr nruns;
     let all = List.rev r.sched in
